@@ -197,6 +197,10 @@ def run(P: Program, R: Report, tier: str) -> None:
     from .c14 import feature_dict_keys_agree
 
     feature_dict_keys_agree(P, R, "R06.15")
+    # ---- R06.16 a lookup that is handed out is a plain dict: reading a missing id must not insert it
+    from .memo import no_autoinsert_lookup
+
+    no_autoinsert_lookup(P, R, "R06.16")
 
 
 def move_order(P: Program, R: Report, ann, fams) -> None:
